@@ -440,6 +440,34 @@ Proof.
     + reflexivity.
 Qed.
 
+(* ---- C18 at the level of a run: a selected task one of whose dependencies cannot be read ---- *)
+Lemma iter_unreadable m s t : inputs_of (files D s) t = None -> iter force b m s t = IStop _ [] [] HashFailed.
+Proof. intros H. unfold RunCache.iter. rewrite H. reflexivity. Qed.
+
+Lemma iter_stop_exec m s t tr ex e : iter force b m s t = IStop _ tr ex e -> ex = [] \/ ex = [tname t].
+Proof. iter_split s t m; intros H; inversion H; subst; auto. Qed.
+
+Lemma loop_unreadable : forall order m s, disk D s = Good m ->
+  forall t, In t order -> inputs_of (files D s) t = None ->
+  (exists e, rr_out D (run_loop force b m s order) = RunErr e) /\
+  (NoDup (map tname order) -> ~ In (tname t) (rr_exec D (run_loop force b m s order))).
+Proof.
+  induction order as [|t0 rest IH]; intros m s Ed t Hin Hn; [destruct Hin|].
+  cbn [RunCache.run_loop]. destruct Hin as [<-|Hin].
+  - rewrite (iter_unreadable m s t0 Hn). cbn [rr_out rr_exec]. split; [eexists; reflexivity|]. intros _ [].
+  - destruct (iter force b m s t0) as [tr ex e|tr ex r m' s'] eqn:E.
+    + cbn [rr_out rr_exec]. split; [eexists; reflexivity|]. intros ND Hx. cbn [map] in ND. inversion ND as [|? ? Nin _]; subst.
+      destruct (iter_stop_exec m s t0 tr ex e E) as [->| ->]; [destruct Hx|].
+      destruct Hx as [Hx|[]]. apply Nin. rewrite Hx. apply in_map. exact Hin.
+    + pose proof (iter_shape m s t0 Ed) as Sh. rewrite E in Sh. destruct Sh as (Ed' & Ef & _).
+      rewrite <- Ef in Hn. destruct (IH m' s' Ed' t Hin Hn) as ((e & He) & Hex).
+      rewrite out_wrap, exec_wrap. rewrite He. split; [eexists; reflexivity|].
+      intros ND Hx. cbn [map] in ND. inversion ND as [|? ? Nin ND']; subst. apply in_app_or in Hx. destruct Hx as [Hx|Hx].
+      * destruct (iter_exec_res m s t0 tr ex r m' s' E) as [[-> _]|[-> _]]; [destruct Hx|].
+        destruct Hx as [Hx|[]]. apply Nin. rewrite Hx. apply in_map. exact Hin.
+      * exact (Hex ND' Hx).
+Qed.
+
 End Run.
 
 (* ---------- a whole invocation, and histories of invocations ---------- *)
@@ -599,6 +627,19 @@ Proof.
   destruct (run_decomp force b s order) as [[_ E]|(m0 & s0 & pre & _ & _ & _ & _ & _ & _ & _ & Ee & Eo)].
   - rewrite E in Hout. discriminate.
   - rewrite Ee. rewrite Eo in Hout. apply loop_exec_results. exact Hout.
+Qed.
+
+(* C18, where it meets the run: if a selected task names a file that cannot be read, the run - forced or not, whatever the
+   cache holds, whatever the other tasks do - ends with an error, and none of that task's commands is started *)
+Theorem unreadable_dependency_stops_the_run force b (s : st) order t :
+  In t order -> inputs_of (files D s) t = None ->
+  (exists e, rr_out D (run force b s order) = RunErr e) /\
+  (NoDup (map tname order) -> ~ In (tname t) (rr_exec D (run force b s order))).
+Proof.
+  intros Hin Hn.
+  destruct (run_decomp force b s order) as [[_ E]|(m0 & s0 & pre & Ed & Ef & _ & _ & _ & _ & _ & Ee & Eo)].
+  - rewrite E. cbn [rr_out rr_exec]. split; [eexists; reflexivity|]. intros _ [].
+  - rewrite Ee, Eo. rewrite <- Ef in Hn. exact (loop_unreadable force b order m0 s0 Ed t Hin Hn).
 Qed.
 
 (* with an injective digest ("up to SHA-256 collisions", C04) up to date means: same inputs *)
